@@ -141,6 +141,10 @@ QCore == {Qn(q, "k", d, b) : q \in {"forall", "exists"}, d \in {Own("xs"), SetOf
                              b \in {Bn("and", Bn(">", K, NumA("0")), Bn("<", K, NumA("2"))), Bn("and", Bn(">", K, NumA("0")), Own("p")),
                                     Bn("or", Bn(">", K, NumA("0")), Own("p")), Bn(">", K, NumA("0")),
                                     Bn("and", Bn(">", K, NumA("0")), Fld(VarR("@A"), "b"))}}
+LooseThenNarrow ==
+  {Qn("forall", "k", d, Bn("and", Bn("in", K, SetOf(<<NumA("1"), NumA("3")>>)), Bn("<", Call(f, K), NumA("4")))) : d \in {Rng("[", NumA("0"), NumA("5"), "]"), Own("xs")}, f \in {"abs", "sqrt"}}
+  \cup {Bn("and", Bn("=", r, Own("w")), Bn(">", Call(f, r), NumA("0"))) : r \in {Own("a"), Fld(VarR("@A"), "n"), VarR("@v")}, f \in {"abs", "floor"}}
+  \cup {Bn("and", Bn("in", r, Own("ws")), Bn(">", Call("len", r), NumA("0"))) : r \in {Own("a")}}
 QInDomain == {Qn(q, "x", SetOf(<<Qn(q2, "k", d, Bn(">", K, NumA("0"))), Own("flag")>>), Bn("or", VarR("@x"), Own("ok"))) :
                  q \in {"forall", "exists"}, q2 \in {"forall", "exists"}, d \in {Own("xs"), Fld(VarR("@A"), "ns"), SetOf(<<NumA("1"), Own("y")>>)}}
 QuantExprs ==
@@ -197,6 +201,11 @@ WrongForBool == {NumA("1"), StrA("$s"), Bn("+", Own("a"), Own("b")), Un("-", Own
 WrongForPrim == {SetOf(<<NumA("1"), NumA("2")>>), Rng("[", NumA("1"), NumA("2"), "]")}
 WrongForComp == {NumA("1"), StrA("$s"), BoolA("True"), Bn("+", Own("a"), Own("b")), Bn("<", Own("a"), Own("b")), Call("abs", Own("a"))}
 NumOps2 == ArithOps \cup OrdOps
+\* contexts that force the reference r to be a NUMBER, one per kind of slot
+ForceNumber(r) == {Bn(">", r, NumA("0")), Bn(">", Bn("+", r, NumA("1")), NumA("0")), Bn(">", Un("-", r), NumA("0")), Bn(">", Call("abs", r), NumA("0")),
+                   Bn("in", Own("x"), Rng("[", r, NumA("3"), "]")), Bn("in", Own("x"), Rng("![", NumA("0"), r, "]!")),
+                   Bn(">", Idx(Own("xs"), r), NumA("0")), Bn(">", Call("sum", Rng("[", NumA("0"), r, "]")), NumA("0")),
+                   Qn("forall", "k", Rng("[", NumA("0"), r, "]"), Bn(">", K, NumA("0")))}
 ClashTerms ==
   {Bn(op, w, g) : op \in NumOps2, w \in WrongForNum, g \in {Own("x"), NumA("1")}}
   \cup {Bn(op, g, w) : op \in NumOps2, w \in WrongForNum, g \in {Own("x"), NumA("1")}}
@@ -247,6 +256,17 @@ ClashTerms ==
   \* the argument of an overloaded function (message | 4 numbers ; compound | numbers) reused at number type
   \cup {Bn("and", Bn(">", Call(f, Own("q")), NumA("0")), Bn("=", Own("q"), NumA("1"))) : f \in {"roll", "pitch", "yaw", "max", "min", "gcd"}}
   \cup {Bn("or", Bn(">", Bn("+", Own("q"), NumA("1")), NumA("0")), Bn("<", Call(f, Own("q")), NumA("3"))) : f \in {"yaw", "min", "gcd", "len", "sum"}}
+  \* one reference forced to a type by EVERY kind of slot, and used elsewhere in the predicate at a disjoint type
+  \cup {Bn(op, force, use) : op \in {"and", "or"}, force \in ForceNumber(Own("a")), use \in {Own("a"), Un("not", Own("a")), Bn("=", Own("a"), StrA("$s")),
+                                                                                            Bn(">", Fld(Own("a"), "f"), NumA("0")), Bn("in", NumA("1"), Own("a"))}}
+  \cup {Bn("and", use, force) : force \in ForceNumber(Fld(Own("a"), "b")), use \in {Fld(Own("a"), "b"), Bn("=", Fld(Own("a"), "b"), StrA("$s"))}}
+  \cup {Bn("and", force, use) : force \in {Bn(">", Idx(Own("a"), NumA("0")), NumA("1")), Qn("forall", "k", Own("a"), Bn(">", K, NumA("0"))),
+                                           Bn(">", Call("len", Own("a")), NumA("0")), Bn("in", NumA("1"), Own("a"))},
+                              use \in {Bn(">", Own("a"), NumA("0")), Own("a"), Bn("=", Own("a"), StrA("$s")), Bn(">", Fld(Own("a"), "f"), NumA("0"))}}
+  \cup {Bn("and", Bn(">", Fld(Own("a"), "f"), NumA("0")), use) : use \in {Bn(">", Own("a"), NumA("0")), Own("a"), Bn("=", Own("a"), StrA("$s")), Bn(">", Idx(Own("a"), NumA("0")), NumA("1"))}}
+  \* nested quantifiers: the OUTER variable used outside and inside the nested quantifier at incompatible types
+  \cup {Qn("forall", "i", d, Bn("and", Bn(">", VarR("@i"), NumA("0")), Qn("exists", "j", Own("ys"), Bn("and", Bn(">", VarR("@j"), NumA("0")), use)))) :
+            d \in {Own("xs"), Fld(VarR("@A"), "xs")}, use \in {Bn("=", VarR("@i"), StrA("$s")), VarR("@i"), Bn("=", Fld(VarR("@i"), "name"), StrA("$s"))}}
   \* top level of a predicate is not boolean
   \cup {Bn("+", Own("x"), NumA("1")), NumA("1"), StrA("$s"), SetOf(<<NumA("1"), NumA("2")>>), Call("abs", Own("x")),
         Rng("[", NumA("1"), NumA("2"), "]"), Un("-", Own("x")), Call("len", Own("xs"))}
@@ -305,6 +325,7 @@ Members ==
     [] Family = "clash"   -> ClashTerms
     [] Family = "rand"    -> RandTerms
     [] Family = "qdom"    -> QInDomain
+    [] Family = "loose"   -> LooseThenNarrow
     [] OTHER -> {}
 
 TInit == cst \in Members
